@@ -26,6 +26,7 @@ import CoreDhcp.Props.C11
 import CoreDhcp.Props.C12
 import CoreDhcp.Props.C13
 import CoreDhcp.Props.C15
+import CoreDhcp.Props.System
 open CoreDhcp
 #print axioms C20_offset_exact
 #print axioms C20_offset_symm
@@ -163,3 +164,12 @@ open CoreDhcp
 #print axioms GEN_sidDecision_rel6
 #print axioms GEN_checkValidNetmask_eq
 #print axioms GEN_checkValidNetmask_masks
+#print axioms SYS_C11
+#print axioms SYS_C15
+#print axioms SYS_C12
+#print axioms SYS_C14_drop4
+#print axioms SYS_C14_drop6
+#print axioms SYS_file_stops4
+#print axioms SYS_file_address4
+#print axioms SYS_frame4
+#print axioms SYS_file_address4_cfg
